@@ -4,3 +4,4 @@ pub mod exgen;
 pub mod recv;
 pub mod redirect;
 pub mod sender;
+pub mod reasons;
